@@ -310,7 +310,7 @@ def run(tier: str, seed: int, replay=None) -> int:
     rep.assume = ["CPython generator protocol: a generator that raises has yielded exactly the rows before the raise",
                   "rows come from let(int, [1..n]) with condition x >= 1: the child query itself is C01's concern"]
     rep.rule = ("exhaustive over n in 0..N and every Exactly/AtLeast/AtMost/Range constraint with bounds lo..hi (quick N=8,-1..9; thorough N=30,-2..32), "
-                "plus the(...) and unconstrained an(...), plus re-evaluations of the SAME query object after the data changed (every the(...) / unconstrained an(...) case from four earlier solution counts, 3% of the constrained ones), plus a seeded 10% re-run through set_of and a seeded 6% re-run as two evaluations of one query object consumed in lock-step (each must behave as the single evaluation the model describes); distinct = distinct (constraint, n, shape); "
+                "plus the(...) and unconstrained an(...), plus re-evaluations of the SAME query object after the data changed (every the(...) / unconstrained an(...) case from four earlier solution counts, 3% of the constrained ones), plus a seeded 10% re-run through set_of, a seeded 10% re-run written with the match API (entity_matching) and a seeded 6% re-run as two evaluations of one query object consumed in lock-step (each must behave as the single evaluation the model describes); distinct = distinct (constraint, n, shape); "
                 "non-trivial = every case (each has a different expected outcome)")
     # Spec must always build (independent of the source)
     ok_spec, log = core.coq_make(["Base/Sx.vo", "Eql/QuantSpec.vo"])
